@@ -360,8 +360,8 @@ pub const HOSTILE_DEFINES: [&str; 22] = [
     "__3E__", "__3E_PLUS__", "__DPC__", "__DPCPLUS__", "__3E__=0",
 ];
 
-pub const INCLUDE_FAULTS: [&str; 9] =
-    ["missing", "empty", "is_directory", "truncated", "corrupt", "self_include", "mutual_include", "name_too_long", "non_utf8"];
+pub const INCLUDE_FAULTS: [&str; 10] =
+    ["missing", "empty", "is_directory", "truncated", "corrupt", "self_include", "mutual_include", "name_too_long", "non_utf8", "fan_out"];
 
 /// Applies an include-tree fault to job `j` (which must have include files). `a`, `b`: free parameters.
 pub fn apply_include_fault(j: &mut JobSpec, kind: &str, a: usize, b: usize) {
@@ -411,6 +411,23 @@ pub fn apply_include_fault(j: &mut JobSpec, kind: &str, a: usize, b: usize) {
             c.extend_from_slice(&content);
             j.includes[fi].kind = IncKind::File(Bytes(c));
             j.includes.push(IncFile { path: other, kind: IncKind::File(Bytes(format!("#include \"{}\"\n", base).into_bytes())) });
+        }
+        "fan_out" => {
+            // a chain of `levels` small headers, each including the next one `fan` times: fan^levels inclusions
+            // behind a depth of only `levels`
+            let levels = 2 + a % 9;
+            let fan = 2 + b % 7;
+            let mut c = format!("#include \"{}.fan1.h\"\n", base).into_bytes();
+            c.extend_from_slice(&content);
+            j.includes[fi].kind = IncKind::File(Bytes(c));
+            for i in 1..=levels {
+                let text = if i == levels {
+                    "#ifndef FAN_LEAF\n#define FAN_LEAF\nchar fan_leaf;\n#endif\n".to_string()
+                } else {
+                    format!("#include \"{}.fan{}.h\"\n", base, i + 1).repeat(fan)
+                };
+                j.includes.push(IncFile { path: format!("{}.fan{}.h", base, i), kind: IncKind::File(Bytes(text.into_bytes())) });
+            }
         }
         "name_too_long" => {
             // the directive in the main source names a file whose name exceeds NAME_MAX
